@@ -18,12 +18,17 @@ Inductive ex :=
 | This
 | Loc (x : nat)                 (* a non-escaping local: lives in register x *)
 | Asg (x : nat) (e : ex)        (* x = e, x += e, x++ … : any expression that writes the local *)
-| Bin (a b : ex).               (* arithmetic / bitwise / relational operator, fused compare-branch *)
+| Bin (a b : ex)                (* arithmetic / bitwise / relational / in / instanceof operator, fused compare-branch *)
+| Mem (o : ex)                  (* o.p, o?.p *)
+| Idx (o k : ex)                (* o[k], o?.[k]: the computed key is ordinary code of the current function *)
+| Seq (a b : ex)                (* two sub-expressions evaluated left to right: call f(x, y) = Seq (Seq f x) y, array and
+                                   object literals, template literals, the comma operator, argument lists *)
+| Cond (c a b : ex).            (* c ? a : b *)
 
 Definition store := nat -> Z.
 Definition upd (st : store) (x : nat) (v : Z) : store := fun y => if Nat.eqb y x then v else st y.
 
-(* ECMA-262: left operand, then right operand, then the operation *)
+(* ECMA-262: sub-expressions left to right, then the operation (values are abstracted to integers, every operator to +) *)
 Fixpoint ref (e : ex) (st : store) : Z * store :=
   match e with
   | Lit n => (n, st)
@@ -31,10 +36,14 @@ Fixpoint ref (e : ex) (st : store) : Z * store :=
   | Loc x => (st x, st)
   | Asg x e => let '(v, st1) := ref e st in (v, upd st1 x v)
   | Bin a b => let '(va, s1) := ref a st in let '(vb, s2) := ref b s1 in (va + vb, s2)
+  | Mem o => let '(vo, s1) := ref o st in (vo + 1, s1)
+  | Idx o k => let '(vo, s1) := ref o st in let '(vk, s2) := ref k s1 in (vo + vk, s2)
+  | Seq a b => let '(va, s1) := ref a st in let '(vb, s2) := ref b s1 in (va + vb, s2)
+  | Cond c a b => let '(vc, s1) := ref c st in if Z.eqb vc 0 then ref b s1 else ref a s1
   end.
 
-(* the compiled code: `snapshot a b` decides whether the left operand a is copied before b is evaluated; if it is a
-   local and is not copied, the instruction reads the local's register after b has run *)
+(* the compiled code: `snapshot a b` decides whether the left operand a of a binary operator is copied before b is
+   evaluated; if it is a local and is not copied, the instruction reads the local's register after b has run *)
 Fixpoint cmp (snapshot : ex -> ex -> bool) (e : ex) (st : store) : Z * store :=
   match e with
   | Lit n => (n, st)
@@ -49,13 +58,21 @@ Fixpoint cmp (snapshot : ex -> ex -> bool) (e : ex) (st : store) : Z * store :=
           else let '(vb, s2) := cmp snapshot b st in (s2 x + vb, s2)
       | _ => let '(va, s1) := cmp snapshot a st in let '(vb, s2) := cmp snapshot b s1 in (va + vb, s2)
       end
+  | Mem o => let '(vo, s1) := cmp snapshot o st in (vo + 1, s1)
+  | Idx o k => let '(vo, s1) := cmp snapshot o st in let '(vk, s2) := cmp snapshot k s1 in (vo + vk, s2)
+  | Seq a b => let '(va, s1) := cmp snapshot a st in let '(vb, s2) := cmp snapshot b s1 in (va + vb, s2)
+  | Cond c a b => let '(vc, s1) := cmp snapshot c st in if Z.eqb vc 0 then cmp snapshot b s1 else cmp snapshot a s1
   end.
 
-Fixpoint assigns (x : nat) (e : ex) : bool :=
+(* can evaluating e assign the local x?  structurally over the whole language: targets, computed keys, arguments,
+   both branches of a conditional *)
+Fixpoint may_assign (x : nat) (e : ex) : bool :=
   match e with
   | Lit _ | This | Loc _ => false
-  | Asg y e => Nat.eqb y x || assigns x e
-  | Bin a b => assigns x a || assigns x b
+  | Asg y e => Nat.eqb y x || may_assign x e
+  | Bin a b | Idx a b | Seq a b => may_assign x a || may_assign x b
+  | Mem o => may_assign x o
+  | Cond c a b => may_assign x c || may_assign x a || may_assign x b
   end.
 
 (* the repaired rule of compile_expr_operand_before: use the register directly only if the later operand is a
@@ -65,8 +82,18 @@ Definition trivially_pure (e : ex) : bool :=
 Definition snapshot_new (a b : ex) : bool := negb (trivially_pure b).
 (* before the fix: never a copy *)
 Definition snapshot_old (a b : ex) : bool := false.
+(* a tempting "fast path for i < a.length": also accept a property access whose target is harmless — and forget that
+   the computed key is code too *)
+Fixpoint harmless_target_only (e : ex) : bool :=
+  match e with
+  | Lit _ | This | Loc _ => true
+  | Mem o => harmless_target_only o
+  | Idx o _ => harmless_target_only o
+  | _ => false
+  end.
+Definition snapshot_member_fastpath (a b : ex) : bool := negb (harmless_target_only b).
 
-Lemma ref_frame : forall e x st, assigns x e = false -> snd (ref e st) x = st x.
+Lemma ref_frame : forall e x st, may_assign x e = false -> snd (ref e st) x = st x.
 Proof.
   induction e; intros y st H; simpl in *; auto.
   - apply orb_false_iff in H. destruct H as [H1 H2].
@@ -75,11 +102,21 @@ Proof.
   - apply orb_false_iff in H. destruct H as [H1 H2].
     specialize (IHe1 y st H1). destruct (ref e1 st) as [va s1]. simpl in *.
     specialize (IHe2 y s1 H2). destruct (ref e2 s1) as [vb s2]. simpl in *. congruence.
+  - specialize (IHe y st H). destruct (ref e st) as [vo s1]. simpl in *. exact IHe.
+  - apply orb_false_iff in H. destruct H as [H1 H2].
+    specialize (IHe1 y st H1). destruct (ref e1 st) as [va s1]. simpl in *.
+    specialize (IHe2 y s1 H2). destruct (ref e2 s1) as [vb s2]. simpl in *. congruence.
+  - apply orb_false_iff in H. destruct H as [H1 H2].
+    specialize (IHe1 y st H1). destruct (ref e1 st) as [va s1]. simpl in *.
+    specialize (IHe2 y s1 H2). destruct (ref e2 s1) as [vb s2]. simpl in *. congruence.
+  - rewrite !orb_false_iff in H. destruct H as [[H1 H2] H3].
+    specialize (IHe1 y st H1). destruct (ref e1 st) as [vc s1]. simpl in *.
+    destruct (Z.eqb vc 0); [rewrite (IHe3 y s1 H3) | rewrite (IHe2 y s1 H2)]; exact IHe1.
 Qed.
 
-(* any rule that copies whenever the later operand can assign the local is sound *)
+(* any rule that copies whenever the later operand may assign the local is sound *)
 Lemma operand_rule_sound : forall snapshot,
-  (forall x b, snapshot (Loc x) b = false -> assigns x b = false) ->
+  (forall x b, snapshot (Loc x) b = false -> may_assign x b = false) ->
   forall e st, cmp snapshot e st = ref e st.
 Proof.
   intros snapshot Hrule. induction e; intros st; simpl; auto.
@@ -91,9 +128,13 @@ Proof.
     (* Loc *) simpl. rewrite IHe2. destruct (snapshot (Loc x) e2) eqn:E.
     + reflexivity.
     + pose proof (ref_frame e2 x st (Hrule x e2 E)) as Hf. destruct (ref e2 st) as [vb s2]. simpl in Hf. rewrite Hf. reflexivity.
+  - rewrite IHe. reflexivity.
+  - rewrite IHe1. destruct (ref e1 st) as [vo s1]. rewrite IHe2. reflexivity.
+  - rewrite IHe1. destruct (ref e1 st) as [va s1]. rewrite IHe2. reflexivity.
+  - rewrite IHe1. destruct (ref e1 st) as [vc s1]. rewrite IHe2, IHe3. reflexivity.
 Qed.
 
-Lemma pure_not_assigns : forall x b, trivially_pure b = true -> assigns x b = false.
+Lemma pure_not_assigns : forall x b, trivially_pure b = true -> may_assign x b = false.
 Proof. intros x b; destruct b; simpl; auto; discriminate. Qed.
 
 Lemma operand_snapshot_sound_ : forall e st, cmp snapshot_new e st = ref e st.
@@ -106,6 +147,15 @@ Qed.
 Lemma operand_snapshot_old_refuted_ :
   exists e st, fst (cmp snapshot_old e st) <> fst (ref e st).
 Proof. exists (Bin (Loc 0) (Asg 0 (Lit 5))), (fun _ => 1). vm_compute. discriminate. Qed.
+
+(* function f(){ let x = 1; return x + a[x++] }: the key assigns x, the fast-path rule does not copy *)
+Lemma operand_member_fastpath_refuted_ :
+  exists e st, snapshot_member_fastpath (Loc 0) (Idx (Loc 1) (Asg 0 (Lit 5))) = false /\
+               may_assign 0 (Idx (Loc 1) (Asg 0 (Lit 5))) = true /\
+               fst (cmp snapshot_member_fastpath e st) <> fst (ref e st).
+Proof.
+  exists (Bin (Loc 0) (Idx (Loc 1) (Asg 0 (Lit 5)))), (fun _ => 1). vm_compute. repeat split; discriminate.
+Qed.
 
 (* ---------------------------------------------------------------------------------------------- *)
 (* (b) postfix update on a local *)
